@@ -244,11 +244,12 @@ class _BaseODE:
 
     def _inv_mrb(self):
         """Decompose the rigid-body part of the mass matrix"""
-        if self.m is not None and self.rbsize:
+        if self.m is not None and self.rbsize and np.size(self._rb):
+            # self.m is the non-rf partition: use indices relative to it
             if self.unc:
-                mrb = self.m[self.rb]
+                mrb = self.m[self._rb]
             else:
-                mrb = self.m[np.ix_(self.rb, self.rb)]
+                mrb = self.m[np.ix_(self._rb, self._rb)]
             self.imrb = self._get_inv_m(mrb)
 
     def _assert_square(self, n, m, b, k):
